@@ -643,6 +643,14 @@ class Explorer:
 
             detail = model_str(s.model())
             witness = model_json(s.model())
+        elif r == z3.unknown and st.hints and self._hinted_counterexample(st, goal) is not None:
+            from .common import model_str, model_json
+
+            mdl = self._hinted_counterexample(st, goal)
+            status = "refuted"
+            backend = "z3(hinted model search)"
+            detail = model_str(mdl)
+            witness = model_json(mdl)
         elif r == z3.unknown:
             from .common import cvc5_check_smt2
 
@@ -670,6 +678,22 @@ class Explorer:
             rank = {"proved": 0, "unknown": 1, "error": 2, "refuted": 3}
             if rank[status] > rank[ob.status]:
                 ob.status, ob.detail, ob.witness, ob.backend = status, detail, witness, backend
+
+    def _hinted_counterexample(self, st, goal):
+        """a model of pc & not goal found after grounding the nonlinear part with the hints (a genuine model)"""
+        key = ("hcx", id(st), goal.get_id())
+        c = getattr(self, "_hcx", {})
+        if key in c:
+            return c[key][1]
+        s2 = z3.Solver()
+        s2.set("timeout", 5000)
+        s2.add(st.pc)
+        s2.add(z3.Not(goal))
+        s2.add(st.hints)
+        mdl = s2.model() if s2.check() == z3.sat else None
+        c[key] = (goal, mdl)
+        self._hcx = c
+        return mdl
 
     def explore(self, thunk):
         """thunk(state) -> value; may raise Python exceptions (recorded as outcomes)."""
